@@ -117,17 +117,39 @@ fn main() {
                 }
                 c
             };
+            // watchdog (C20): a case that does not return within the deadline is reported and the run ends
+            let deadline: u64 = std::env::var("VH_CASE_DEADLINE").ok().and_then(|s| s.parse().ok()).unwrap_or(120);
+            let current: std::sync::Arc<std::sync::Mutex<Vec<Option<(String, std::time::Instant)>>>> =
+                std::sync::Arc::new(std::sync::Mutex::new(vec![None; threads.max(1)]));
+            {
+                let current = current.clone();
+                let report_path = report_path.clone();
+                std::thread::spawn(move || loop {
+                    std::thread::sleep(std::time::Duration::from_millis(500));
+                    let hung: Option<String> = current.lock().unwrap().iter().flatten()
+                        .find(|(_, t)| t.elapsed().as_secs() >= deadline).map(|(l, _)| l.clone());
+                    if let Some(l) = hung {
+                        let mut rf = std::fs::File::create(&report_path).unwrap();
+                        writeln!(rf, "HANG {}", l).unwrap();
+                        writeln!(rf, "FINDING C20 | {} | optimise_state did not return within {} s (every other case returns in milliseconds; the model returns after the configured number of steps)", l, deadline).unwrap();
+                        std::process::exit(0);
+                    }
+                });
+            }
             let handles: Vec<_> = chunks
                 .into_iter()
                 .enumerate()
                 .map(|(ti, chunk)| {
                     let cp = format!("{}.{}", cases_path, ti);
+                    let current = current.clone();
                     std::thread::spawn(move || {
                         let mut cf = std::io::BufWriter::new(std::fs::File::create(&cp).unwrap());
                         let mut rep = vec![];
                         for l in chunk {
                             let spec = Spec::parse(&l);
+                            current.lock().unwrap()[ti] = Some((l.clone(), std::time::Instant::now()));
                             let run = opt::run_case(&spec);
+                            current.lock().unwrap()[ti] = None;
                             opt::write_case(&run, &mut cf);
                             let (findings, st) = opt::monitor(&run);
                             rep.push(format!(
